@@ -69,6 +69,14 @@ def qr_jobs(rng, quick):
                     add(filler(rng, md, c + 1, 0), level, apimode[md])            # lands in the next version or is rejected
                 if v <= 4 or not quick:
                     add(filler(rng, md, max(0, c - rng.randint(1, 5)), 1), level, 0)   # Auto, below the boundary
+    if quick:
+        # every one of the 160 (version, level) cells once at exact capacity (block table, version info, alignment grid of every version);
+        # the segment mode rotates with the seed
+        rot = rng.randrange(3)
+        for v in range(1, 41):
+            for level in range(4):
+                md = (1, 2, 4)[(v + level + rot) % 3]
+                add(filler(rng, md, cap(v, level, md), 1), level, apimode[md])
     # small sizes: every residue and every alphabet member
     for n in range(0, 12):
         add(filler(rng, 1, n, 1), rng.randrange(4), 1)
